@@ -430,6 +430,31 @@ func (s *Slice) HasFieldLoad(key string) bool {
 	return false
 }
 
+// HasFieldLoadDeep is HasFieldLoad that also looks behind the getters: a call in the slice to a function with a body
+// whose results are computed from the field (followed to the given depth).
+func (s *Slice) HasFieldLoadDeep(key string, depth int) bool {
+	if s.HasFieldLoad(key) {
+		return true
+	}
+	if depth <= 0 {
+		return false
+	}
+	for v := range s.Values {
+		c, ok := v.(*ssa.Call)
+		if !ok {
+			continue
+		}
+		g := c.Call.StaticCallee()
+		if g == nil || g.Blocks == nil || g == s.Fn {
+			continue
+		}
+		if ReturnSlice(g, -1).HasFieldLoadDeep(key, depth-1) {
+			return true
+		}
+	}
+	return false
+}
+
 // HasValue reports whether v is in the slice.
 func (s *Slice) HasValue(v ssa.Value) bool { return s.Values[v] }
 
